@@ -5,14 +5,16 @@ import json
 import os
 
 rows = []
-for m in sorted(glob.glob("/verif/seeded/*/meta.json")):
+for m in sorted(glob.glob(os.path.join(os.path.dirname(os.path.dirname(os.path.abspath(__file__))), "seeded", "*", "meta.json"))):
     d = json.load(open(m))
     rows.append(d)
 out = ["# Seeded changes and which quick checks catch them", "",
        "`caught (failing input)` = the check printed VIOLATION with a concrete replay on the real code; `caught (no-failing-input-found)` = a "
        "proof obligation or the correspondence broke and the widened search found no input on which the property's own predicate fails "
        "(expected for checks of OTHER properties that share the broken model part).", "",
-       "| seeded change | breaks | confirmed | caught with failing input | caught, no failing input | silent |", "|---|---|---|---|---|---|"]
+       "`first evaluation` = what the targeted check said when the change was first evaluated, before any strengthening it prompted "
+       "(recorded for the waves W and X of session 3; `missed` = exit 0).", "",
+       "| seeded change | breaks | confirmed | first evaluation (targeted check) | caught with failing input | caught, no failing input | silent |", "|---|---|---|---|---|---|---|"]
 for d in rows:
     if d.get("kind") == "harmless-refactoring":
         continue
@@ -22,10 +24,19 @@ for d in rows:
     s = sorted(k for k, v in c.items() if not v["violation"])
     target = d["property"]
     mark = lambda l: ", ".join(f"**{x}**" if x == target else x for x in l) or "–"
-    out.append(f"| {d['name']} | {target} | {'yes' if d['confirmed'] else 'NO'} | {mark(a)} | {mark(b)} | {len(s)} checks{' incl. **' + target + '**' if target in s else ''} |")
+    fe = d.get("first_evaluation")
+    if not fe:
+        first = "(as now)"
+    elif target in (fe.get("caught_with_failing_input") or []):
+        first = "caught"
+    elif target in (fe.get("caught_by") or []):
+        first = "caught, no failing input"
+    else:
+        first = "**missed**"
+    out.append(f"| {d['name']} | {target} | {'yes' if d['confirmed'] else 'NO'} | {first} | {mark(a)} | {mark(b)} | {len(s)} checks{' incl. **' + target + '**' if target in s else ''} |")
 out += ["", "## Behaviour-preserving refactorings (every check must stay silent)", "", "| refactoring | lines changed | tests | checks run | alarms |", "|---|---|---|---|---|"]
 for d in rows:
     if d.get("kind") == "harmless-refactoring":
         out.append(f"| {d['name']} | {d['lines_changed']} | {d['tests_with_change'].split(' in ')[0]} | {len(d['checks'])} | {', '.join(d['false_alarms']) or 'none'} |")
-open("/verif/seeded/TABLE.md", "w").write("\n".join(out) + "\n")
+open(os.path.join(os.path.dirname(os.path.dirname(os.path.abspath(__file__))), "seeded", "TABLE.md"), "w").write("\n".join(out) + "\n")
 print("\n".join(out))
